@@ -269,6 +269,9 @@ func (fs *FS) Remove(name string) error {
 
 // Rename implements hackpadfs.RenameFS
 func (fs *FS) Rename(oldname, newname string) error {
+	if !hackpadfs.ValidPath(oldname) || !hackpadfs.ValidPath(newname) {
+		return &hackpadfs.LinkError{Op: "rename", Old: oldname, New: newname, Err: hackpadfs.ErrInvalid}
+	}
 	oldFile, err := fs.getFile(oldname)
 	if err != nil {
 		return &hackpadfs.LinkError{Op: "rename", Old: oldname, New: newname, Err: hackpadfs.ErrNotExist}
